@@ -60,6 +60,8 @@ Inductive case18 :=
      (fired : bool)                            (* anti_entropy_syncs incremented *)
      (la2 lb2 : list (string * rvalue))        (* states after the round, iteration order *)
      (da2 db2 : sdigest)                       (* their digests *)
+     (depth2 : N) (dvx dvy : list N)           (* divergent_buckets of A's digest against B's
+                                                  digest at depth2, both ways (surplus arms) *)
 | KP (depth : N) (la : list (string * rvalue)). (* from_state panicked *)
 
 Definition obs_map (m : gmap (list N) rvalue) : gmap (list N) rvalue := obs <$> m.
@@ -75,7 +77,7 @@ Definition check18 (k : case18) : bool :=
   match k with
   | KP depth la =>
       match from_state_checked hh depth (ents la) with DPanic => true | DOk _ => false end
-  | KS depth limit la lb da db dif dv sa sb fired la2 lb2 da2 db2 =>
+  | KS depth limit la lb da db dif dv sa sb fired la2 lb2 da2 db2 depth2 dvx dvy =>
       let ea := ents la in let eb := ents lb in
       let ma := from_state hh depth ea in
       let mb := from_state hh depth eb in
@@ -97,6 +99,8 @@ Definition check18 (k : case18) : bool :=
       end &&
       deq (from_state hh depth (ents la2)) da2 &&
       deq (from_state hh depth (ents lb2)) db2 &&
+      (let mbx := from_state hh depth2 eb in
+       bool_decide (divergent_buckets ma mbx = dvx) && bool_decide (divergent_buckets mbx ma = dvy)) &&
       (* on small states also with the N-based SipHash of Lib/SipHash.v (sip13f = sip13, proved) *)
       (if (List.length la + List.length lb <=? 4)%nat
        then deq (from_state sip13f depth ea) da && deq (from_state sip13f depth eb) db
